@@ -494,6 +494,9 @@ def main(tier):
 
     c08_lit.replay_cases(rep, bld, litcases, tier)
     c08_hist.replay_cases(rep, bld, histories, tier)
+    # settings across passes (spec/PassModes.tla): a statement never reads a setting made behind it
+    from checks import ext_passmodes
+    ext_passmodes.run(rep, bld, tier)
     return rep.finish(
         rule="formulas = every operator of the manual's table x every ordered pair of the boundary operand alphabet, "
              "every built-in function over its small domain, alias spellings, plus TLC-simulated trees up to depth 6; "
